@@ -7,19 +7,25 @@ from props.ll_common import LLCheck, connected, connect_ind, ctrl, session, le
 
 META = dict(
     text="Instant-based procedures apply at their instant or end the link.",
-    level_note="Coq model of link_layer<> (coq/LL/LLModel.v, the code AFTER the repair branch fix/C21-instant-checks; the unrepaired tree "
-               "violates the property: exit 1 with a shrunk replay) tied to the real link_layer<> on a scripted radio. Proved, unbounded (every "
+    level_note="Coq model of link_layer<> (coq/LL/LLModel.v, the code with the repair fix/C21-instant-checks, now in /repo; the tree before "
+               "it violated the property: exit 1 with a shrunk replay) tied to the real link_layer<> on a scripted radio. Proved, unbounded (every "
                "16 bit counter incl. wrap, every instant, any latency, any event flags, any received PDUs): the instant comparison is the Core rule "
                "(passed iff (I - c) mod 65536 is 0 or >= 32767); a connection update / channel map / PHY update indication is either refused with "
                "0x28 in the event that looks at it or deferred unchanged; planning never passes a pending instant and strictly approaches it; the "
                "deferred procedure is applied - carried values - exactly in the step whose planned counter equals the instant (end_event and "
                "timeout), nothing of it before; after the application try_event_cancelation can not move the event; an invariant over ALL "
                "operation sequences from power-up (pending => 1 <= distance, distance + last latency <= 32767; not connected => nothing pending). "
-               "Only monitored / tied (every run, not proved): that the executable specification monitor (counter derived from the window timing, "
-               "CSA#1 channel of the map in force, ATT answers owed) accepts every model trace (Definition C21_monitor_accepts_all_full).",
+               "The executable specification monitor (counter derived from the window timing, CSA#1 channel of the map in force, ATT answers "
+               "owed) is proved never to raise a clause of the property (tags 1-6) on any model trace of any length (C21_monitor_accepts_partial: "
+               "simulation between model state and monitor state, coq/LL/LLSimC21.v, using the C20 theorems for the channel) inside the executable "
+               "environment env_run, which excludes exactly (a) operations delivering >= 4 callbacks (event ring overflow, C29: without it the "
+               "statement is refuted, C21_monitor_accepts_rest_refuted) and (b) events in which the number of events the monitor derives from the "
+               "window timing differs from the step of the link layer's counter - the timing derivation itself (32 bit microsecond arithmetic, ppm) "
+               "is assumed there, not proved, and checked on every run by the monitor clause `counter`. Tag 7 (connection update naming the next "
+               "event refused) is the known finding (C21_monitor_accepts_all_refuted).",
     design_ref="DESIGN.md section 6 C21, docs/C21.md, docs/LL_MODEL.md",
     technique="Coq state-machine model + modular arithmetic (lia with euclidean division equations) + step invariants by induction over the "
-              "operation sequence; boundary instants (c-2..c+3, c+32765..c+32769) x latency 0/1/4/499 x counters near 0 / 65535 x lost events x "
+              "operation sequence + simulation relation model state / monitor state; boundary instants (c-2..c+3, c+32765..c+32769) x latency 0/1/4/499 x counters near 0 / 65535 x lost events x "
               "traffic while pending replayed on the real link layer; executable spec monitor on the implementation's traces")
 
 ATT = "2:03000400021700"          # ATT Exchange MTU Request: the probe for "received data is processed"
